@@ -10,7 +10,7 @@ from engine.vloop import Deadlock
 from harness.common import World, mem_places, place_names, run_async
 
 
-def h10(S, max_m=2, extra_max=2, queues=1, max_limit=3, dmax_us=2000, zero=False, backend="mem"):
+def h10(S, max_m=2, extra_max=2, queues=1, max_limit=3, dmax_us=2000, zero=False, backend="mem", latency_us=0, dmin_us=0):
     from repid import Job, Router, Worker
     from repid.converter import BasicConverter
 
@@ -22,7 +22,7 @@ def h10(S, max_m=2, extra_max=2, queues=1, max_limit=3, dmax_us=2000, zero=False
     if zero:
         d = [0] * B
     else:
-        d = [S.real(f"d{i}", 0, dmax, lo_strict=True) for i in range(B)]
+        d = [S.real(f"d{i}", Fraction(dmin_us, 10**6), dmax, lo_strict=True) for i in range(B)]
     S.tag("M", M)
     S.tag("backlog", B)
     # the first execution may end with an error *after* the actor ran (a result was asked for and nobody stores results)
@@ -34,6 +34,9 @@ def h10(S, max_m=2, extra_max=2, queues=1, max_limit=3, dmax_us=2000, zero=False
     async def main(loop):
         w = World(backend=backend)
         await w.open(queues=qnames, record=True)
+        if latency_us and backend == "redis":
+            # every Redis round trip takes this long, so a stop can land between any two commands of a fetch
+            w.srv.latency = lambda client: Fraction(latency_us, 10**6)
         from harness.common import observe_consumers
         out["consumer_log"] = observe_consumers(w.broker)
         r = Router()
@@ -164,6 +167,15 @@ HARNESSES = [
         bounds={"broker": "real Redis broker/consumer (prefetch buffer) on the fake server", "M": "1 quick / [1,2] thorough", "backlog": "M+1..M+2",
                 "durations": "(0, 250 ms]", "tasks_limit": "[1, 2]"},
         functions=["connections/redis/consumer.py:_RedisConsumer.finish"], covers=["run-returned"], stubs=["fake Redis server"]),
+    Harness(
+        name="H10-redis-short-actors", scenario=h10, workers=16, budget_s=900,
+        params={"quick": {"max_m": 1, "extra_max": 3, "queues": 1, "dmin_us": 100000, "dmax_us": 112000, "max_limit": 3, "backend": "redis", "latency_us": 1000},
+                "thorough": {"max_m": 2, "extra_max": 3, "queues": 1, "dmin_us": 100000, "dmax_us": 112000, "max_limit": 3, "backend": "redis", "latency_us": 1000}},
+        bounds={"broker": "Redis on the fake server, every round trip takes 1 ms", "M": "1 / [1, 2]", "backlog": "M+1..M+3", "tasks_limit": "[1, 3]",
+                "durations": "(100 ms, 112 ms]: the consumer polls the empty HIGH-priority lists for 100 ms, then fetches the next message with four 1 ms "
+                             "round trips - the limit's stop lands before, between and after any of them"},
+        functions=["connections/redis/consumer.py:_RedisConsumer.backgroud_consume", "_runner.py:_Runner.run_one_queue"], covers=["run-returned"],
+        stubs=["fake Redis server"]),
     Harness(
         name="H10-rabbit-two-queues", scenario=h10, workers=16, budget_s=900,
         params={"quick": {"max_m": 2, "extra_max": 1, "queues": 2, "dmax_us": 50000, "max_limit": 2, "backend": "rabbit"},
